@@ -39,7 +39,8 @@ CHECKS = {
         "bounds": {}, "assumptions": [],
     },
     "C15": {
-        "runs": [dict(pkg="./pkg/chart/v2/util", files=["pkg/chart/v2/util/h_c15_roundtrip.go"], entries=["H15RoundTrip", "H15Name", "H15Tree"], bounds_quick={"bodylen": 3, "namelen": 1}, bounds_thorough={"bodylen": 4, "namelen": 2})],
+        "runs": [dict(pkg="./pkg/chart/v2/util", files=["pkg/chart/v2/util/h_c15_roundtrip.go"], entries=["H15RoundTrip", "H15Name", "H15Tree"], bounds_quick={"bodylen": 3, "namelen": 1}, bounds_thorough={"bodylen": 4, "namelen": 2}),
+                 dict(pkg="./pkg/ignore", files=["pkg/ignore/h_c15_ignore.go"], entries=["H15Ignore", "H15IgnoreFile"], bounds_quick={"linelen": 3, "pathlen": 3}, bounds_thorough={"linelen": 4, "pathlen": 4})],
         "bounds": {}, "assumptions": [],
     },
     "C16": {
@@ -89,7 +90,8 @@ CHECKS = {
         "bounds": {}, "assumptions": [],
     },
     "C12": {
-        "runs": [dict(ACTION, entries=["H12Exec", "H12Gate"], bounds_quick={"hooks": 2, "faults": 1}, bounds_thorough={"hooks": 3, "faults": 1}, limits={"max_instrs": 20000000, "max_decisions": 2000})],
+        "runs": [dict(ACTION, entries=["H12Exec", "H12Gate"], bounds_quick={"hooks": 2, "faults": 1}, bounds_thorough={"hooks": 3, "faults": 1}, limits={"max_instrs": 20000000, "max_decisions": 2000}),
+                 dict(pkg="./pkg/release/util", files=["pkg/release/util/h_c12_weight.go"], entries=["H12Weight"], bounds_quick={"maxweight": 9999}, bounds_thorough={"maxweight": 999999})],
         "bounds": {}, "assumptions": [],
     },
     "C07": {
